@@ -62,6 +62,8 @@ def shrink(mod, case, subs, workdir, rounds=6):
 
 
 def run(prop, tier, seed):
+    if tier == 'thorough':
+        os.environ.setdefault('VERIF_SHARD_TIMEOUT', '3600')
     t0 = time.time()
     mod = importlib.import_module(f'props.{prop.lower()}')
     workdir = common.workdir_for(prop)
